@@ -170,7 +170,10 @@ def check_generated(case, r):
                 r.count("transitions", 2)
                 same = (a1 is a2) or (isinstance(a1, Raised) and isinstance(a2, Raised))
                 s1 = s2 = None
-                if same and a1 is True:
+                consistent = isinstance(ref_successor(S, "a", args, st, pg.objs), RefState)
+                if same and a1 is True and not consistent:
+                    r.outcome("skip-inconsistent-effects")
+                if same and a1 is True and consistent:
                     s1 = observe(guard(lambda: operator(D, "a", args, pr1.objects).apply(ls1)))
                     s2 = observe(guard(lambda: operator(D2, "a", args, pr2.objects).apply(ls2)))
                     r.count("transitions", 2)
